@@ -24,6 +24,7 @@ func main() {
 	verif := flag.String("verif", "/verif", "verif directory (evidence, reports, known findings)")
 	list := flag.Bool("list", false, "list registered properties")
 	selftest := flag.Bool("selftest", false, "run the mutant battery of the property (thorough tier does this too)")
+	all := flag.Bool("all", false, "development aid: load once and run every property (quick), printing '== <id>: CAUGHT|silent' per property; evidence goes to -verif")
 	noSelf := flag.Bool("no-selftest", false, "skip the mutant battery in thorough tier (used by the battery's own children)")
 	flag.Parse()
 
@@ -33,6 +34,10 @@ func main() {
 		for _, id := range ids {
 			fmt.Println(id)
 		}
+		return
+	}
+	if *all {
+		runAll(*repo, *verif)
 		return
 	}
 	fn := props.Lookup(*prop)
@@ -91,4 +96,42 @@ func main() {
 	}
 	res := run.Finish(*verif, seed, start, false)
 	os.Exit(res.Exit)
+}
+
+// runAll is a development aid (used by tools/tryseed.sh): one load, every
+// property at the quick tier. Registered checks never use it.
+func runAll(repo, verif string) {
+	abs, _ := filepath.Abs(repo)
+	p, err := core.Load(abs)
+	ids := props.IDs()
+	sort.Strings(ids)
+	if err != nil {
+		fmt.Fprintf(os.Stderr, "ERROR %v\n", err)
+		for _, id := range ids {
+			fmt.Printf("== %s: CAUGHT\n  unresolved: load-error\n", id)
+		}
+		os.Exit(1)
+	}
+	exit := 0
+	for _, id := range ids {
+		func() {
+			defer func() {
+				if r := recover(); r != nil {
+					fmt.Printf("== %s: CAUGHT\n  undecided: analyser-panic %v\n", id, r)
+					exit = 1
+				}
+			}()
+			run := core.NewRun(id, "quick", p)
+			props.Lookup(id)(run)
+			fmt.Printf("== %s\n", id)
+			res := run.Finish(verif, 0, time.Now(), false)
+			if res.Exit != 0 {
+				fmt.Printf("== %s: CAUGHT\n", id)
+				exit = 1
+			} else {
+				fmt.Printf("== %s: silent\n", id)
+			}
+		}()
+	}
+	os.Exit(exit)
 }
